@@ -698,7 +698,9 @@ ErrorsReachExactlyDependents ==
     \* (a member of a cycle can finish before the root of the cycle fails: consumers look at the cycle root)
     /\ \A m \in Live : (status[m] = "evaluated" /\ evalError[cycleRoot[m]] = 0) => \A d \in ReachStar(m) : fin[d]
     /\ \A m \in Live : (status[m] = "evaluated" /\ evalError[m] # 0) => ~fin[m] \/ (\E t \in ReachPlus(m) : m \in ReachPlus(t))
-    /\ \A m \in Live : status[m] \in {"linked", "evaluated"}
+    \* (members of a cycle whose root failed are never executed: they stay evaluating-async, and every later
+    \* Evaluate of them goes through the cycle root and its error)
+    /\ \A m \in Live : (status[m] \in {"linked", "evaluated"}) \/ (status[m] = "evaluating-async" /\ evalError[cycleRoot[m]] # 0)
     /\ \A m \in Live : fin[m] => ran[m] = 1
     /\ \A m \in Live : threw[m] => (ran[m] = 1 /\ ~fin[m])
 
